@@ -74,6 +74,7 @@ pub mod model
     pub static mut MUTATIONS: usize = 0;
     pub static mut READS: usize = 0;
     pub static mut RENAMES_OK: usize = 0;
+    pub static mut RENAMES_FAILED: usize = 0;
     pub static mut FAILED_OPS: usize = 0;
     pub static mut SILENT_FAILURES: usize = 0;
 
@@ -109,6 +110,7 @@ pub mod model
         MUTATIONS = 0;
         READS = 0;
         RENAMES_OK = 0;
+        RENAMES_FAILED = 0;
         FAILED_OPS = 0;
         SILENT_FAILURES = 0;
         FAIL_MASK = 0;
@@ -496,6 +498,7 @@ pub mod fs
             MUTATIONS += 1;
             if fail
             {
+                RENAMES_FAILED += 1;
                 return Err(io::injected());
             }
             let f = path_id(to_str(&from));
